@@ -3,6 +3,11 @@ CONSTANTS
   Conns = {"c1", "c2"}
   Mods = {"m1", "m2"}
   Used = {"debug", "info", "error", "off"}
+  ComMods = {"m1"}
+  Configs <- CfgOne
+  MaxDay = 1
+  Acts = {"logging", "emit", "ident", "disconnect"}
+  InitLevels = {99}
   Depth = 3
 CONSTRAINT Bound
 INVARIANT Emit1
